@@ -131,6 +131,8 @@ def rule_faults():
     f("not-zero-args", append({"$not": []}))
     f("not-two-args", append({"$not": ["zz", "yy"]}))
     f("deref-without-main-reg", append({"zz": [{"$deref": {"constant_offset": "0x8"}}]}))
+    f("deref-without-main-reg-index-only", append({"zz": [{"$deref": {"register_multiplier": "%rax", "constant_multiplier": 8, "constant_offset": "0x0"}}]}))
+    f("deref-without-main-reg-index", append({"zz": ["%rbx", {"$deref": {"register_multiplier": "rcx"}}]}))
     f("deref-field-empty-list", append({"zz": [{"$deref": {"main_reg": [], "constant_offset": "0x8"}}]}))
     f("deref-empty-body", append({"zz": [{"$deref": {}}]}))
     f("deref-field-two-values", append({"zz": [{"$deref": {"main_reg": ["%rax", "%rbx"]}}]}))
